@@ -319,7 +319,7 @@ def guarded(fn, text, ctx=None):
         signal.signal(signal.SIGVTALRM, old)
 
 
-def execute(sc, stats=None, fresh_parsers=None):
+def execute(sc, stats=None, fresh_parsers=None, trace=None):
     from hpl import parser as hp
     stats = stats if stats is not None else {}
 
@@ -392,6 +392,8 @@ def execute(sc, stats=None, fresh_parsers=None):
                 return _viol('undocumented:RecursionError', 'RecursionError on a text within the nesting bound', step, sc, kind, text)
             fired = True
         cls = 'aborted' if fired else ('ok' if oc[0] == 'ok' else oc[1])
+        if trace is not None:
+            trace.append((step, kind, cls, oc[:2] if oc is not None else None, fault.get('k') if fault else None))
         transitions.add((kind, prev_class.get(pi), cls))
         prev_class[pi] = cls
         if fired:
@@ -451,29 +453,54 @@ def _viol(cls, detail, step, sc, kind, text):
 ###############################################################################
 
 
+def prep():
+    """Deterministic template state: every run is forked off a process that has done exactly this."""
+    for k in PARSER_KINDS:
+        pristine(k)
+
+
+def one_run(seed, cfg):
+    sc = gen_scenario(seed, cfg)
+    stats = {}
+    tr = []
+    v = execute(sc, stats, trace=tr)
+    return {'v': v, 'stats': stats, 'digest_gen': sc['digest_gen'], 'digest_exec': core.derive(repr(tr)),
+            'texts': [t['text'] for t in sc['texts']],
+            'sample': {'seed': seed, 'texts': [dict(t, text=t['text'][:160]) for t in sc['texts'][:4]], 'calls': sc['calls'][:8]}}
+
+
+def isolated_execute(sc):
+    """Execute a scenario in a child forked from the prepared template (used by minimise/replay)."""
+    def go():
+        v = execute(sc, {})
+        return v, sc
+    return core.run_isolated(go)
+
+
 def worker(job):
     cfg = job['cfg']
-    stats = {}
+    stats = {'_sites': set(), '_abort_sites': set(), '_transitions': set()}
     found = []
     digests = []
     samples = []
     ntexts = set()
     t0 = time.monotonic()
-    for k in PARSER_KINDS:
-        pristine(k)
+    prep()
     for idx in job['indices']:
         if time.monotonic() - t0 > job['wall']:
             stats['runs_skipped_for_time'] = stats.get('runs_skipped_for_time', 0) + 1
             continue
         seed = core.derive(job['master'], PROP, idx)
-        sc = gen_scenario(seed, cfg)
-        v = execute(sc, stats)
+        r = core.run_isolated(one_run, seed, cfg)
+        for k in ('_sites', '_abort_sites', '_transitions'):
+            stats[k].update(r['stats'].pop(k, set()))
+        core.merge_counts(stats, r['stats'])
         stats['runs'] = stats.get('runs', 0) + 1
-        digests.append((idx, sc['digest_gen']))
-        for t in sc['texts']:
-            ntexts.add(t['text'])
+        digests.append((idx, r['digest_gen'], r['digest_exec']))
+        ntexts.update(r['texts'])
         if len(samples) < 1:
-            samples.append({'run_index': idx, 'seed': seed, 'texts': [dict(t, text=t['text'][:160]) for t in sc['texts'][:4]], 'calls': sc['calls'][:8]})
+            samples.append(dict(r['sample'], run_index=idx))
+        v = r['v']
         if v is not None:
             v['run_index'] = idx
             v['seed'] = seed
@@ -497,7 +524,7 @@ def minimise(sc, v, budget=120):
         if v['step'] < len(sc['calls']):
             t['module_calls'] = []
         try:
-            r = execute(t, {})
+            r, _sc = isolated_execute(t)
         except Exception:
             return False
         return r is not None and r['class'] == cls
@@ -515,8 +542,8 @@ def minimise(sc, v, budget=120):
     out['calls'] = small
     if v['step'] < len(sc['calls']):
         out['module_calls'] = []
-    r = execute(out, {})
-    return out, (r or v)
+    r, out2 = isolated_execute(out)
+    return (out2 if r is not None else out), (r or v)
 
 
 def make_replay(sc, v):
@@ -528,7 +555,8 @@ def make_replay(sc, v):
 
 def replay(doc):
     sc = {'texts': doc['texts'], 'calls': doc['calls'], 'module_calls': doc.get('module_calls', [])}
-    return execute(sc, {})
+    prep()
+    return isolated_execute(sc)[0]
 
 
 def main(argv):
@@ -574,8 +602,8 @@ def main(argv):
         transitions.update(tuple(s) for s in r['transitions'])
         distinct_texts += r['distinct_texts']
     if args.digests:
-        for idx, d in sorted(digests):
-            print('DIGEST %d %s' % (idx, d))
+        for idx, d, e in sorted(digests):
+            print('DIGEST %d %s %x' % (idx, d, e))
     known = core.load_known_findings(PROP)
     new, known_hits, harness_errors = [], [], []
     seen = set()
@@ -586,9 +614,10 @@ def main(argv):
     for cls, vs in sorted(per_class.items()):
         vs.sort(key=lambda v: len(v['text']))
         for v in vs[:limit]:
+            prep()
             sc = gen_scenario(v['seed'], cfg)
             # resolve fault sites exactly as the failing execution did
-            execute(sc, {})
+            _r, sc = isolated_execute(sc)
             msc, mv = minimise(sc, v)
             key = (mv['class'], mv['text'])
             if key in seen:
